@@ -88,6 +88,7 @@ func init() {
 				{Name: "parse-bytes", Pkg: pkgSchema, Harness: "HarnessC12ParseBytes", Params: map[string]int64{"n": pick(tier, 3, 4), "alphabet": 0}, Reach: []string{"c12.parse.accepted", "c12.parse.rejected"}},
 				{Name: "error-rendering", Pkg: pkgSchema, Harness: "HarnessC12ErrorRendering", Params: map[string]int64{"n": pick(tier, 3, 5)}, Reach: []string{"c12.render"}},
 				{Name: "endpoints-agree", Pkg: pkgSchema, Harness: "HarnessC12Endpoints", Params: map[string]int64{"n": pick(tier, 3, 4), "alphabet": 1}, Overrides: map[string]string{"io.ReadAll": "verifReadAll"}, Reach: []string{"c12.endpoints"}},
+				{Name: "invalid-utf8-literal-at-every-token", Pkg: pkgSchema, Harness: "HarnessC12BadLiteralEverywhere", Params: map[string]int64{}, Reach: []string{"c12.bad-literal"}},
 				{Name: "pumped-lexemes", Pkg: pkgSchema, Harness: "HarnessC12Pump", Params: map[string]int64{}, Reach: []string{"c12.pump.returned"}},
 				{Name: "parser-tokens", Pkg: pkgSchema, Harness: "HarnessC12ParserTokens", Params: map[string]int64{"L": pick(tier, 4, 5)}, Overrides: map[string]string{"(*github.com/ory/keto/internal/schema.lexer).nextNonCommentItem": "verifNextToken12"}, Reach: []string{"c12.tokens.done"}, Budget: time.Duration(pick(tier, 240, 1800)) * time.Second},
 			}
@@ -98,6 +99,7 @@ func init() {
 				"parse":           "every byte string of length 0.." + itoa(pick(tier, 3, 4)) + " through Parse and error rendering",
 				"error rendering": "inputs of length 0.." + itoa(pick(tier, 3, 5)) + " over {\\n,' ',a,\\t,0xC3,0xA9,0xFF}, every 0 <= Start <= End <= len",
 				"endpoints":       "REST and gRPC syntax check on every byte string of length 0.." + itoa(pick(tier, 3, 4)) + " over printable ASCII, blanks, newlines and multi-byte/invalid UTF-8 bytes: same error count and positions as the parser on the submitted document",
+				"bad literals":    "a full document of 107 tokens with each token in turn replaced by a quoted name / identifier that is not valid UTF-8 (4 spellings): rejected, and every message is valid UTF-8",
 				"pumped lexemes":  "46 lexemes (every single-rune token, operators, identifiers, keywords, string and comment openers, invalid bytes, small token groups) x repetition 19, 20, 21, 22, 41, 64 x separator {none, blank, newline} x 3 prefixes x 3 suffixes, concrete text through the real lexer (items channel of capacity 20) and parser",
 				"parser tokens":   "every token sequence of length <= " + itoa(pick(tier, 4, 5)) + " over the token alphabet after 'class N implements Namespace {' (viable prefixes, by forking)",
 			}
@@ -339,7 +341,7 @@ func init() {
 		Patterns:    append(append([]string{}, enginePatterns...), sqlPatterns...),
 		HarnessDirs: []string{"internal/check/zzverif", "internal/persistence/sql"},
 		ReplayTags:  "sqlite",
-		NoReplay:    map[string]string{"HarnessC16SQLMapping": "keto_uuid_mappings table of the database model (symbolic presence flags, chosen map iteration order)", "HarnessC16SQLLarge": "database model"},
+		NoReplay:    map[string]string{"HarnessC16SQLMapping": "keto_uuid_mappings table of the database model (symbolic presence flags, chosen map iteration order)", "HarnessC16SQLLarge": "database model", "HarnessC16SQLTwoNetworks": "database model", "HarnessC16SQLRollback": "database model"},
 		Assumptions: []string{"SQL runs: keto_uuid_mappings is a model table (primary key id, ON CONFLICT DO NOTHING / INSERT IGNORE honoured, SELECT ... WHERE id in (?) returns rows in table order); uuid.NewV5 computed natively (SHA-1 injectivity assumed); iter.Pull drains the finite sequence eagerly; every iteration order of the id map with 2..3 entries is a separate path", "engine-side runs: MappingManager replaced by an injective string<->UUID table (stubMapping); equality of the opaque symbolic strings is decided by the solver", "namespaces N and M configured through the real memory namespace manager"},
 		Outside:     []string{"batches larger than the bounds", "names outside the adversarial pool in the SQL runs (the SQL code moves strings and never inspects them; the engine-side runs use opaque symbolic strings)", "map iteration orders of maps with more than 3 entries (insertion order only)", "collation / normalisation behaviour of a real database's text column"},
 		Runs: func(tier string) []Run {
@@ -360,6 +362,12 @@ func init() {
 				m.Reach = []string{"c16.sql.roundtrip", "c16.sql.read"}
 				runs = append(runs, m)
 			}
+			tn := sqlRun("sql-two-networks-share-the-mapping-table", "HarnessC16SQLTwoNetworks", map[string]int64{"dialect": 0})
+			tn.Reach = []string{"c16.sql.two-networks"}
+			runs = append(runs, tn)
+			rb := sqlRun("sql-write-after-rolled-back-attempt", "HarnessC16SQLRollback", map[string]int64{"dialect": 0})
+			rb.Reach = []string{"c16.sql.rollback"}
+			runs = append(runs, rb)
 			l := sqlRun("sql-batches-around-the-lookup-page", "HarnessC16SQLLarge", map[string]int64{"step": 1, "dialect": 0})
 			l.Reach = []string{"c16.sql.large"}
 			runs = append(runs, l)
@@ -397,7 +405,7 @@ func init() {
 		ID:          "C13",
 		Patterns:    append(append([]string{pkgRts, "github.com/ory/keto/internal/x/validate"}, enginePatterns...), sqlPatterns...),
 		HarnessDirs: []string{"internal/check", "internal/relationtuple", "internal/expand", "internal/persistence/sql"},
-		NoReplay:    map[string]string{"HarnessC13PageSize": "arbitrary symbolic table of the database model"},
+		NoReplay:    map[string]string{"HarnessC13PageSize": "arbitrary symbolic table of the database model", "HarnessC13CheckREST": "the request body is delivered through the JSON-decoder stub, which exists only under the executor"},
 		Assumptions: []string{"request values are arbitrary inhabitants of the request types (every optional pointer nil or not, repeated fields of length 0..limit+1, JSON arrays may hold null elements, numbers fully symbolic, names from pools of known/unknown namespaces and opaque strings)", "JSON decoding stubbed as 'arbitrary value of the static type or an error'", "engine core summarised by an uninterpreted function (fresh symbolic result per distinct argument tuple)", "status of an error computed as herodot does (first StatusCodeCarrier in the chain, else 500)"},
 		Outside:     []string{"HTTP parsing, routers, middleware, protobuf and JSON wire decoding", "a page size whose successor overflows reaches the database as a negative LIMIT: SQLite reads it as 'no limit' (modelled), MySQL and PostgreSQL reject the statement (not modelled)"},
 		Runs: func(tier string) []Run {
@@ -445,7 +453,7 @@ func init() {
 	register(&Property{
 		ID:            "C17",
 		OnlyMsgPrefix: "C17:",
-		NoReplay:      map[string]string{"HarnessC17Servers": "grpc.NewServer and the generated Register*ServiceServer functions are replaced by recording stubs, which exist only under the executor"},
+		NoReplay:      map[string]string{"HarnessC13CheckREST": "the request body is delivered through the JSON-decoder stub, which exists only under the executor", "HarnessC17Servers": "grpc.NewServer and the generated Register*ServiceServer functions are replaced by recording stubs, which exist only under the executor"},
 		Patterns:      append([]string{"github.com/ory/keto/internal/driver", "github.com/ory/keto/internal/namespace/namespacehandler", pkgSchema, pkgOpl}, c13.Patterns...),
 		HarnessDirs:   []string{"internal/check", "internal/relationtuple", "internal/expand", "internal/driver"},
 		Assumptions:   []string{"storage = recording stubs of relationtuple.Manager and MappingManager: any call of a writing method (WriteRelationTuples, DeleteRelationTuples, DeleteAllRelationTuples, TransactRelationTuples, MapStringsToUUIDs) or of the writing Mapper() from a read handler is the violation", "requests: arbitrary inhabitants of the request types as in C13, names known and never seen before (opaque strings)"},
